@@ -7,8 +7,33 @@ package main
 
 import (
 	"fmt"
+	"go/ast"
 	"strings"
 )
+
+// c11GuardedBlock prints (space-normalised) the if-statement of function fn whose condition is cond — the glue
+// statement is pinned, not the whole function (the rest of `load` belongs to other owners).
+func c11GuardedBlock(f *ast.File, fn, cond string) string {
+	out := "unknown:missing " + fn + " / if " + cond
+	n := 0
+	for _, d := range f.Decls {
+		fd, ok := d.(*ast.FuncDecl)
+		if !ok || fd.Name.Name != fn || fd.Body == nil || fd.Recv != nil {
+			continue
+		}
+		ast.Inspect(fd.Body, func(x ast.Node) bool {
+			if is, ok := x.(*ast.IfStmt); ok && is.Init == nil && norm(src(is.Cond)) == cond {
+				out = norm(src(is))
+				n++
+			}
+			return true
+		})
+	}
+	if n > 1 {
+		return fmt.Sprintf("unknown:%d blocks guarded by %s in %s", n, cond, fn)
+	}
+	return out
+}
 
 func init() { extraGenerators = append(extraGenerators, genC11Facts) }
 
@@ -40,6 +65,8 @@ func genC11Facts() (string, string) {
 		{"c11_body_envFileIndexer", funcBody(parse("override/uncity.go"), "", "envFileIndexer")},
 		{"c11_body_enforceUnicity", funcBody(parse("override/uncity.go"), "", "enforceUnicity")},
 	}
+	// the tail of loader.load: `name` forced to the resolved project name, then Normalize (Pipeline.finishLoad)
+	entries = append(entries, struct{ name, body string }{"c11_stmt_load_normalize", c11GuardedBlock(parse("loader/loader.go"), "load", "!opts.SkipNormalization")})
 	for _, e := range entries {
 		fmt.Fprintf(&b, "def %s : String := %s\n", e.name, leanStr(e.body))
 	}
